@@ -5,6 +5,7 @@ import Rtp.Model.VLA
 import Rtp.Pred.C19
 import Rtp.Proofs.Leb128
 import Rtp.Go.Bits
+set_option linter.unusedSimpArgs false
 namespace Rtp.Model.Vla
 open Rtp Rtp.Spec.VlaSpec
 
@@ -719,5 +720,597 @@ theorem marshal_eq_encode (v : VLA) (h : v.WF) : marshal v = .ok (encode v) := b
       cases hh : v.hasRes with
       | false => simp; omega
       | true => simp; omega
+
+/-! ## Unmarshal ∘ encode = id on valid allocations
+
+### header byte and bitmasks -/
+
+theorem hdr_unpack : ∀ (r c : Fin 4) (m : Fin 16),
+    (((64 * r.val + 16 * c.val + m.val).toUInt8 >>> 6) &&& 3).toNat = r.val ∧
+    (((64 * r.val + 16 * c.val + m.val).toUInt8 >>> 4) &&& 3).toNat = c.val ∧
+    (64 * r.val + 16 * c.val + m.val).toUInt8 &&& 15 = m.val.toUInt8 := by decide
+
+theorem nib_unpack : ∀ a b : Fin 16,
+    ((16 * a.val + b.val).toUInt8 >>> 4) &&& 15 = a.val.toUInt8 ∧
+    (16 * a.val + b.val).toUInt8 &&& 15 = b.val.toUInt8 := by decide
+
+theorem nib_unpack1 : ∀ a : Fin 16, ((16 * a.val).toUInt8 >>> 4) &&& 15 = a.val.toUInt8 := by decide
+
+/-- bit k of a bitmask -/
+theorem bmOf_bit : ∀ (b0 b1 b2 b3 : Bool) (k : Fin 4),
+    (((bmOf b0 b1 b2 b3).toUInt8 &&& ((1 : UInt8) <<< k.val.toUInt8)) == 0) =
+      !(if k.val = 0 then b0 else if k.val = 1 then b1 else if k.val = 2 then b2 else b3) := by decide
+
+theorem header_unpack (v : VLA) (hc : 1 ≤ v.count ∧ v.count ≤ 4) (hr : 0 ≤ v.rid ∧ v.rid < v.count) :
+    ((header v >>> 6) &&& 3).toNat = v.rid.toNat ∧
+    ((header v >>> 4) &&& 3).toNat + 1 = ns v ∧
+    header v &&& 15 = (slBm v).toUInt8 := by
+  have := hdr_unpack ⟨v.rid.toNat, by omega⟩ ⟨ns v - 1, by unfold ns; omega⟩ ⟨slBm v, slBm_lt v⟩
+  simp only at this
+  unfold header
+  refine ⟨this.1, ?_, this.2.2⟩
+  rw [this.2.1]; unfold ns; omega
+
+/-- reading the slX_bm block written by `packNibbles` -/
+theorem readMask_packed (f : Nat → Nat) (hf : ∀ s, f s < 16) (n : Nat) (hn : 1 ≤ n ∧ n ≤ 4)
+    (b0 : UInt8) (rest : Bytes) :
+    (List.range n).map (readMask (b0 :: (packNibbles ((List.range n).map f) ++ rest))) =
+      (List.range n).map (fun s => (f s).toUInt8) := by
+  have p2 : ∀ a b, ((16 * f a + f b).toUInt8 >>> 4) &&& 15 = (f a).toUInt8 ∧
+      (16 * f a + f b).toUInt8 &&& 15 = (f b).toUInt8 := fun a b => nib_unpack ⟨f a, hf a⟩ ⟨f b, hf b⟩
+  have p1 : ∀ a, ((16 * f a).toUInt8 >>> 4) &&& 15 = (f a).toUInt8 := fun a => nib_unpack1 ⟨f a, hf a⟩
+  have hn' : n = 1 ∨ n = 2 ∨ n = 3 ∨ n = 4 := by omega
+  have g0 : ∀ (x : UInt8) (l : Bytes), (x :: l).getD 0 0 = x := fun _ _ => rfl
+  have g1 : ∀ (x y : UInt8) (l : Bytes), (x :: y :: l).getD 1 0 = y := fun _ _ _ => rfl
+  have g2 : ∀ (x y z : UInt8) (l : Bytes), (x :: y :: z :: l).getD 2 0 = z := fun _ _ _ _ => rfl
+  rcases hn' with rfl | rfl | rfl | rfl
+  · simp only [range_1, List.map_cons, List.map_nil, packNibbles, readMask, at', List.cons_append,
+      List.nil_append, g1]
+    simp only [Nat.reduceMod, Nat.reduceDiv, Nat.reduceAdd, beq_self_eq_true, if_true, g1, p1]
+  · simp only [range_2, List.map_cons, List.map_nil, packNibbles, readMask, at', List.cons_append,
+      List.nil_append]
+    simp only [Nat.reduceMod, Nat.reduceDiv, Nat.reduceAdd, Nat.reduceBEq, beq_self_eq_true, if_true,
+      Bool.false_eq_true, if_false, g1, (p2 0 1).1, (p2 0 1).2]
+  · simp only [range_3, List.map_cons, List.map_nil, packNibbles, readMask, at', List.cons_append,
+      List.nil_append]
+    simp only [Nat.reduceMod, Nat.reduceDiv, Nat.reduceAdd, Nat.reduceBEq, beq_self_eq_true, if_true,
+      Bool.false_eq_true, if_false, g1, g2, (p2 0 1).1, (p2 0 1).2, p1]
+  · simp only [range_4, List.map_cons, List.map_nil, packNibbles, readMask, at', List.cons_append,
+      List.nil_append]
+    simp only [Nat.reduceMod, Nat.reduceDiv, Nat.reduceAdd, Nat.reduceBEq, beq_self_eq_true, if_true,
+      Bool.false_eq_true, if_false, g1, g2, (p2 0 1).1, (p2 0 1).2, (p2 2 3).1, (p2 2 3).2]
+
+theorem packNibbles_length : ∀ l : List Nat, (packNibbles l).length = (l.length + 1) / 2
+  | [] => rfl
+  | [_] => by simp [packNibbles]
+  | _ :: _ :: r => by
+    have := packNibbles_length r
+    simp only [packNibbles, List.length_cons, this]; omega
+
+/-! ### the decoder's slot enumeration -/
+
+/-- the (stream, spatial id) pair the decoder produces for a layer -/
+def key2 (l : Layer) : Nat × Nat := (l.stream.toNat, l.spatial.toNat)
+
+theorem flatMap_congr' {α β : Type} {f g : α → List β} :
+    ∀ {l : List α}, (∀ x ∈ l, f x = g x) → l.flatMap f = l.flatMap g := by
+  intro l
+  induction l with
+  | nil => intro _; rfl
+  | cons a l ih =>
+    intro h
+    simp only [List.flatMap_cons, h a (by simp)]
+    rw [ih (fun x hx => h x (by simp [hx]))]
+
+theorem slot_map_key2 (v : VLA) (s k : Nat) :
+    (slot v.layers s k).map key2 = if active v s k then some (s, k) else none := by
+  unfold slot active
+  cases hf : v.layers.find? (fun l => l.stream == (s : Int) && l.spatial == (k : Int)) with
+  | none =>
+    have := List.find?_eq_none.mp hf
+    have hany : v.layers.any (fun l => l.stream == (s : Int) && l.spatial == (k : Int)) = false := by
+      rw [Bool.eq_false_iff]
+      intro h
+      obtain ⟨x, hx, hp⟩ := List.any_eq_true.mp h
+      exact this x hx hp
+    simp [hany]
+  | some x =>
+    have hp := List.find?_some hf
+    have hm := List.mem_of_find?_eq_some hf
+    have hany : v.layers.any (fun l => l.stream == (s : Int) && l.spatial == (k : Int)) = true :=
+      List.any_eq_true.mpr ⟨x, hm, hp⟩
+    simp only [Bool.and_eq_true, beq_iff_eq] at hp
+    simp only [hany, if_true, Option.map_some, key2, hp.1, hp.2, Int.toNat_natCast]
+
+theorem bm_bit (v : VLA) (s k : Nat) (hk : k < 4) :
+    (((bm v s).toUInt8 &&& ((1 : UInt8) <<< k.toUInt8)) == 0) = !active v s k := by
+  have := bmOf_bit (active v s 0) (active v s 1) (active v s 2) (active v s 3) ⟨k, hk⟩
+  have hk' : k = 0 ∨ k = 1 ∨ k = 2 ∨ k = 3 := by omega
+  rcases hk' with rfl | rfl | rfl | rfl <;> simpa [bm, bmOf] using this
+
+theorem activeSlots_eq (v : VLA) (hs : v.layers.Pairwise Layer.before)
+    (hw : ∀ l ∈ v.layers, l.WF v.count) :
+    activeSlots (ns v) ((List.range (ns v)).map (fun s => (bm v s).toUInt8)) = v.layers.map key2 := by
+  have h1 : activeSlots (ns v) ((List.range (ns v)).map (fun s => (bm v s).toUInt8)) =
+      (tableOrder (ns v) v.layers).map key2 := by
+    unfold activeSlots tableOrder
+    rw [List.map_flatMap]
+    apply flatMap_congr'
+    intro s hs'
+    have hs'' : s < ns v := List.mem_range.mp hs'
+    rw [List.map_filterMap]
+    apply filterMap_congr'
+    intro k hk
+    have hk' : k < 4 := List.mem_range.mp hk
+    have hg : ((List.range (ns v)).map (fun s => (bm v s).toUInt8)).getD s 0 = (bm v s).toUInt8 := by
+      rw [List.getD_eq_getElem?_getD, List.getElem?_map, List.getElem?_range hs'']; rfl
+    rw [hg, bm_bit v s k hk', slot_map_key2]
+    cases active v s k <;> simp
+  rw [h1]
+  unfold ns
+  rw [tableOrder_sorted v.layers v.count hs hw]
+
+/-! ### reading the #tl bytes -/
+
+/-- what the #tl loop appends for a layer: ids and `make([]int, tlCount)` -/
+def blank (l : Layer) : Layer :=
+  { stream := ((l.stream.toNat : Nat) : Int), spatial := ((l.spatial.toNat : Nat) : Int),
+    rates := List.replicate l.rates.length 0, width := 0, height := 0, fps := 0 }
+
+theorem at'_append (pre : Bytes) (b : UInt8) (post : Bytes) : at' (pre ++ b :: post) pre.length = b := by
+  simp [at', List.getD_eq_getElem?_getD]
+
+theorem rdTl_step (bs : Bytes) (s k : Nat) (rest : List (Nat × Nat)) (idx off : Nat) (acc : List Layer)
+    (hi : idx < 4) (ho : off < bs.length) :
+    rdTl bs ((s, k) :: rest) idx off acc =
+      rdTl bs rest (idx + 1) off (acc ++ [
+        { stream := s, spatial := k,
+          rates := List.replicate (((at' bs off >>> (2 * (3 - idx) : Nat).toUInt8) &&& 3).toNat + 1) 0,
+          width := 0, height := 0, fps := 0 }]) := by
+  have h1 : ¬ idx ≥ 4 := by omega
+  have h2 : ¬ off ≥ bs.length := by omega
+  simp [rdTl, h1, h2]
+
+theorem rdTl_wrap (bs : Bytes) (s k : Nat) (rest : List (Nat × Nat)) (off : Nat) (acc : List Layer)
+    (ho : off + 1 + 1 ≤ bs.length) :
+    rdTl bs ((s, k) :: rest) 4 off acc = rdTl bs ((s, k) :: rest) 0 (off + 1) acc := by
+  have h2 : ¬ off + 1 ≥ bs.length := by omega
+  have h3 : ¬ bs.length ≤ off + 1 := by omega
+  simp [rdTl, ho, h2, h3]
+
+theorem tl_unpack1 : ∀ a : Fin 4,
+    ((((64 * a.val).toUInt8 >>> (2 * (3 - 0) : Nat).toUInt8) &&& 3).toNat + 1) = a.val + 1 := by decide
+theorem tl_unpack2 : ∀ a b : Fin 4,
+    ((((64 * a.val + 16 * b.val).toUInt8 >>> (2 * (3 - 0) : Nat).toUInt8) &&& 3).toNat + 1) = a.val + 1 ∧
+    ((((64 * a.val + 16 * b.val).toUInt8 >>> (2 * (3 - (0 + 1)) : Nat).toUInt8) &&& 3).toNat + 1) = b.val + 1 := by
+  decide
+theorem tl_unpack3 : ∀ a b c : Fin 4,
+    ((((64 * a.val + 16 * b.val + 4 * c.val).toUInt8 >>> (2 * (3 - 0) : Nat).toUInt8) &&& 3).toNat + 1) = a.val + 1 ∧
+    ((((64 * a.val + 16 * b.val + 4 * c.val).toUInt8 >>> (2 * (3 - (0 + 1)) : Nat).toUInt8) &&& 3).toNat + 1) = b.val + 1 ∧
+    ((((64 * a.val + 16 * b.val + 4 * c.val).toUInt8 >>> (2 * (3 - (0 + 1 + 1)) : Nat).toUInt8) &&& 3).toNat + 1) = c.val + 1 := by
+  decide
+theorem tl_unpack4 : ∀ a b c d : Fin 4,
+    ((((64 * a.val + 16 * b.val + 4 * c.val + d.val).toUInt8 >>> (2 * (3 - 0) : Nat).toUInt8) &&& 3).toNat + 1) = a.val + 1 ∧
+    ((((64 * a.val + 16 * b.val + 4 * c.val + d.val).toUInt8 >>> (2 * (3 - (0 + 1)) : Nat).toUInt8) &&& 3).toNat + 1) = b.val + 1 ∧
+    ((((64 * a.val + 16 * b.val + 4 * c.val + d.val).toUInt8 >>> (2 * (3 - (0 + 1 + 1)) : Nat).toUInt8) &&& 3).toNat + 1) = c.val + 1 ∧
+    ((((64 * a.val + 16 * b.val + 4 * c.val + d.val).toUInt8 >>> (2 * (3 - (0 + 1 + 1 + 1)) : Nat).toUInt8) &&& 3).toNat + 1) = d.val + 1 := by
+  decide
+
+theorem pack2_ne_nil : ∀ l : List Nat, l ≠ [] → pack2 l ≠ []
+  | [], h => absurd rfl h
+  | [_], _ => by simp [pack2]
+  | [_, _], _ => by simp [pack2]
+  | [_, _, _], _ => by simp [pack2]
+  | _ :: _ :: _ :: _ :: _, _ => by simp [pack2]
+
+theorem rdTl_eq : ∀ (L : List Layer) (pre post : Bytes) (acc : List Layer), L ≠ [] →
+    (∀ l ∈ L, 1 ≤ l.rates.length ∧ l.rates.length ≤ 4) →
+    rdTl (pre ++ pack2 (L.map (fun l => l.rates.length - 1)) ++ post) (L.map key2) 0 pre.length acc =
+      .ok (pre.length + (pack2 (L.map (fun l => l.rates.length - 1))).length - 1) (acc ++ L.map blank)
+  | [], _, _, _, h, _ => absurd rfl h
+  | [a], pre, post, acc, _, hw => by
+    have ha := hw a (by simp)
+    have hp := tl_unpack1 (tlOf a ha)
+    simp only [tlOf] at hp
+    have ea : a.rates.length - 1 + 1 = a.rates.length := by omega
+    simp only [List.map_cons, List.map_nil, pack2, key2, List.append_assoc, List.cons_append, List.nil_append]
+    rw [rdTl_step _ _ _ _ _ _ _ (by omega) (by simp), at'_append, hp, ea]
+    simp [rdTl, blank]
+  | [a, b], pre, post, acc, _, hw => by
+    have ha := hw a (by simp); have hb := hw b (by simp)
+    have hp := tl_unpack2 (tlOf a ha) (tlOf b hb)
+    simp only [tlOf] at hp
+    have ea : a.rates.length - 1 + 1 = a.rates.length := by omega
+    have eb : b.rates.length - 1 + 1 = b.rates.length := by omega
+    simp only [List.map_cons, List.map_nil, pack2, key2, List.append_assoc, List.cons_append, List.nil_append]
+    rw [rdTl_step _ _ _ _ _ _ _ (by omega) (by simp), rdTl_step _ _ _ _ _ _ _ (by omega) (by simp),
+      at'_append, hp.1, hp.2, ea, eb]
+    simp [rdTl, blank]
+  | [a, b, c], pre, post, acc, _, hw => by
+    have ha := hw a (by simp); have hb := hw b (by simp); have hc := hw c (by simp)
+    have hp := tl_unpack3 (tlOf a ha) (tlOf b hb) (tlOf c hc)
+    simp only [tlOf] at hp
+    have ea : a.rates.length - 1 + 1 = a.rates.length := by omega
+    have eb : b.rates.length - 1 + 1 = b.rates.length := by omega
+    have ec : c.rates.length - 1 + 1 = c.rates.length := by omega
+    simp only [List.map_cons, List.map_nil, pack2, key2, List.append_assoc, List.cons_append, List.nil_append]
+    rw [rdTl_step _ _ _ _ _ _ _ (by omega) (by simp), rdTl_step _ _ _ _ _ _ _ (by omega) (by simp),
+      rdTl_step _ _ _ _ _ _ _ (by omega) (by simp), at'_append, hp.1, hp.2.1, hp.2.2, ea, eb, ec]
+    simp [rdTl, blank]
+  | a :: b :: c :: d :: r, pre, post, acc, _, hw => by
+    have ha := hw a (by simp); have hb := hw b (by simp); have hc := hw c (by simp)
+    have hd := hw d (by simp)
+    have hp := tl_unpack4 (tlOf a ha) (tlOf b hb) (tlOf c hc) (tlOf d hd)
+    simp only [tlOf] at hp
+    have ea : a.rates.length - 1 + 1 = a.rates.length := by omega
+    have eb : b.rates.length - 1 + 1 = b.rates.length := by omega
+    have ec : c.rates.length - 1 + 1 = c.rates.length := by omega
+    have ed : d.rates.length - 1 + 1 = d.rates.length := by omega
+    simp only [List.map_cons, pack2, key2, List.append_assoc, List.cons_append]
+    rw [rdTl_step _ _ _ _ _ _ _ (by omega) (by simp), rdTl_step _ _ _ _ _ _ _ (by omega) (by simp),
+      rdTl_step _ _ _ _ _ _ _ (by omega) (by simp), rdTl_step _ _ _ _ _ _ _ (by omega) (by simp),
+      at'_append, hp.1, hp.2.1, hp.2.2.1, hp.2.2.2, ea, eb, ec, ed]
+    cases r with
+    | nil => simp [rdTl, blank, pack2]
+    | cons l r' =>
+      have hne : pack2 ((l :: r').map (fun l => l.rates.length - 1)) ≠ [] := pack2_ne_nil _ (by simp)
+      have hlen : 1 ≤ (pack2 ((l :: r').map (fun l => l.rates.length - 1))).length :=
+        List.length_pos_iff.mpr hne
+      have ih := rdTl_eq (l :: r') (pre ++ [(64 * (a.rates.length - 1) + 16 * (b.rates.length - 1) +
+        4 * (c.rates.length - 1) + (d.rates.length - 1)).toUInt8]) post
+        (acc ++ [blank a] ++ [blank b] ++ [blank c] ++ [blank d]) (by simp)
+        (fun x hx => hw x (by simp only [List.mem_cons] at hx ⊢; right; right; right; right; exact hx))
+      simp only [List.map_cons, key2, blank, List.append_assoc, List.cons_append, List.nil_append,
+        List.length_append, List.length_cons, List.length_nil] at ih hlen ⊢
+      rw [rdTl_wrap _ _ _ _ _ _ (by simp only [List.length_append, List.length_cons]; omega)]
+      rw [ih]
+      congr 1
+      omega
+
+/-! ### reading the bitrates -/
+
+theorem intOfU64_toUInt64 (k : Int) (h : 0 ≤ k ∧ k < 2 ^ 63) : intOfU64 k.toNat.toUInt64 = k := by
+  unfold intOfU64
+  have e : k.toNat.toUInt64.toNat = k.toNat := by
+    simp only [Nat.toUInt64, UInt64.toNat_ofNat']
+    omega
+  rw [e]
+  have : k.toNat < 9223372036854775808 := by omega
+  simp only [this, if_true]
+  omega
+
+/-- a decoded layer before the resolution block is read -/
+def filled (l : Layer) : Layer := { blank l with rates := l.rates }
+
+theorem rdRates_eq (hleb : LebGoSpec) : ∀ (ks todo : List Int) (pre post : Bytes),
+    todo.length = ks.length → (∀ k ∈ ks, 0 ≤ k ∧ k < 2 ^ 56) →
+    rdRates (pre ++ ks.flatMap (fun k => writeLeb k.toNat) ++ post) todo pre.length =
+      .ok (pre.length + (ks.flatMap (fun k => writeLeb k.toNat)).length) ks := by
+  intro ks
+  induction ks with
+  | nil =>
+    intro todo pre post hl _
+    have : todo = [] := List.length_eq_zero_iff.mp hl
+    subst this
+    simp [rdRates]
+  | cons k ks ih =>
+    intro todo pre post hl hk
+    cases todo with
+    | nil => simp at hl
+    | cons t todo =>
+      have hk0 := hk k (by simp)
+      have hkn : k.toNat < 2 ^ 56 := by omega
+      have hdrop : List.drop pre.length (pre ++ (k :: ks).flatMap (fun k => writeLeb k.toNat) ++ post) =
+          writeLeb k.toNat ++ (ks.flatMap (fun k => writeLeb k.toNat) ++ post) := by
+        rw [List.append_assoc, List.drop_left, List.flatMap_cons, List.append_assoc]
+      have hread := hleb k.toNat (ks.flatMap (fun k => writeLeb k.toNat) ++ post) hkn
+      have ih' := ih todo (pre ++ writeLeb k.toNat) post (by simpa using hl)
+        (fun x hx => hk x (by simp [hx]))
+      have hbs : pre ++ (k :: ks).flatMap (fun k => writeLeb k.toNat) ++ post =
+          pre ++ writeLeb k.toNat ++ ks.flatMap (fun k => writeLeb k.toNat) ++ post := by
+        simp [List.flatMap_cons, List.append_assoc]
+      unfold rdRates
+      have h1 : ¬ (pre.length > (pre ++ (k :: ks).flatMap (fun k => writeLeb k.toNat) ++ post).length) := by
+        simp only [List.length_append]; omega
+      simp only [h1, if_false, hdrop, hread]
+      have h2 : pre.length + (writeLeb k.toNat).length ≤
+          (pre ++ (k :: ks).flatMap (fun k => writeLeb k.toNat) ++ post).length := by
+        simp only [List.length_append, List.flatMap_cons]; omega
+      simp only [h2, not_true_eq_false, if_false]
+      rw [hbs]
+      have hl2 : (pre ++ writeLeb k.toNat).length = pre.length + (writeLeb k.toNat).length := by simp
+      rw [hl2] at ih'
+      rw [ih', intOfU64_toUInt64 k (by omega)]
+      simp only [List.flatMap_cons, List.length_append]
+      congr 1
+      omega
+
+theorem rdLayerRates_eq (hleb : LebGoSpec) : ∀ (L : List Layer) (pre post : Bytes),
+    (∀ l ∈ L, ∀ k ∈ l.rates, 0 ≤ k ∧ k < 2 ^ 56) →
+    rdLayerRates (pre ++ L.flatMap (fun l => l.rates.flatMap (fun k => writeLeb k.toNat)) ++ post)
+        (L.map blank) pre.length =
+      .ok (pre.length + (L.flatMap (fun l => l.rates.flatMap (fun k => writeLeb k.toNat))).length)
+        (L.map filled) := by
+  intro L
+  induction L with
+  | nil => intro pre post _; simp [rdLayerRates]
+  | cons l L ih =>
+    intro pre post hk
+    have hbs : pre ++ (l :: L).flatMap (fun l => l.rates.flatMap (fun k => writeLeb k.toNat)) ++ post =
+        pre ++ l.rates.flatMap (fun k => writeLeb k.toNat) ++
+          (L.flatMap (fun l => l.rates.flatMap (fun k => writeLeb k.toNat)) ++ post) := by
+      simp [List.flatMap_cons, List.append_assoc]
+    have h1 := rdRates_eq hleb l.rates (List.replicate l.rates.length 0) pre
+      (L.flatMap (fun l => l.rates.flatMap (fun k => writeLeb k.toNat)) ++ post) (by simp)
+      (hk l (by simp))
+    have ih' := ih (pre ++ l.rates.flatMap (fun k => writeLeb k.toNat)) post
+      (fun x hx => hk x (by simp [hx]))
+    have hl2 : (pre ++ l.rates.flatMap (fun k => writeLeb k.toNat)).length =
+        pre.length + (l.rates.flatMap (fun k => writeLeb k.toNat)).length := by simp
+    rw [hl2] at ih'
+    simp only [List.map_cons]
+    unfold rdLayerRates
+    rw [hbs]
+    simp only [blank] at h1 ⊢
+    rw [h1]
+    simp only
+    rw [← List.append_assoc, ih']
+    simp only [filled, blank, List.flatMap_cons, List.length_append]
+    congr 1
+    omega
+
+/-! ### reading the resolution records -/
+
+theorem rd16_be16 (x : UInt16) : rd16 (x >>> 8).toUInt8 x.toUInt8 = x := by
+  apply UInt16.toNat_inj.mp
+  simp only [rd16, UInt16.toNat_or, UInt16.toNat_shiftLeft, UInt8.toNat_toUInt16, UInt16.toNat_toUInt8,
+    UInt16.toNat_shiftRight]
+  have hn := x.toNat_lt
+  generalize x.toNat = n at hn ⊢
+  have e8 : UInt16.toNat 8 % 16 = 8 := by decide
+  rw [e8]
+  have h1 : n >>> 8 % 2 ^ 8 = n / 256 := by rw [Nat.shiftRight_eq_div_pow]; omega
+  rw [h1]
+  have h2 : (n / 256) <<< 8 % 2 ^ 16 = (n / 256) <<< 8 := by
+    rw [Nat.shiftLeft_eq]; apply Nat.mod_eq_of_lt; omega
+  rw [h2, Bits.nat_shl_or _ _ 8 (by omega)]
+  omega
+
+theorem dim_roundtrip (w : Int) (h : 1 ≤ w ∧ w ≤ 65536) :
+    (((w - 1).toNat.toUInt16).toNat : Int) + 1 = w := by
+  have : ((w - 1).toNat.toUInt16).toNat = (w - 1).toNat := by
+    simp only [Nat.toUInt16, UInt16.toNat_ofNat']; omega
+  rw [this]; omega
+
+theorem fps_roundtrip (f : Int) (h : 0 ≤ f ∧ f ≤ 255) : ((f.toNat.toUInt8).toNat : Int) = f := by
+  have : (f.toNat.toUInt8).toNat = f.toNat := by
+    simp only [Nat.toUInt8, UInt8.toNat_ofNat']; omega
+  rw [this]; omega
+
+theorem at'_append5 (pre : Bytes) (a b c d e : UInt8) (post : Bytes) :
+    at' (pre ++ a :: b :: c :: d :: e :: post) pre.length = a ∧
+    at' (pre ++ a :: b :: c :: d :: e :: post) (pre.length + 1) = b ∧
+    at' (pre ++ a :: b :: c :: d :: e :: post) (pre.length + 2) = c ∧
+    at' (pre ++ a :: b :: c :: d :: e :: post) (pre.length + 3) = d ∧
+    at' (pre ++ a :: b :: c :: d :: e :: post) (pre.length + 4) = e := by
+  simp [at', List.getD_eq_getElem?_getD, List.getElem?_append_right]
+
+/-- the resolution fields are restored on top of `filled` -/
+theorem rdRes_eq : ∀ (L : List Layer) (pre post : Bytes), (∀ l ∈ L, l.ResWF) →
+    rdRes (pre ++ L.flatMap resRecord ++ post) (L.map filled) pre.length =
+      some (pre.length + (L.flatMap resRecord).length,
+        L.map (fun l => { filled l with width := l.width, height := l.height, fps := l.fps })) := by
+  intro L
+  induction L with
+  | nil => intro pre post _; simp [rdRes]
+  | cons l L ih =>
+    intro pre post hw
+    have hl := hw l (by simp)
+    have ih' := ih (pre ++ resRecord l) post (fun x hx => hw x (by simp [hx]))
+    have hlen : (resRecord l).length = 5 := by simp [resRecord, be16]
+    have hl2 : (pre ++ resRecord l).length = pre.length + 5 := by simp [hlen]
+    rw [hl2] at ih'
+    have hbs : pre ++ (l :: L).flatMap resRecord ++ post =
+        pre ++ resRecord l ++ L.flatMap resRecord ++ post := by
+      simp [List.flatMap_cons, List.append_assoc]
+    simp only [List.map_cons]
+    unfold rdRes
+    have h1 : ¬ (pre.length + 4 ≥ (pre ++ (l :: L).flatMap resRecord ++ post).length) := by
+      simp only [List.length_append, List.flatMap_cons, hlen]; omega
+    simp only [h1, if_false]
+    rw [hbs, ih']
+    simp only
+    have hb : pre ++ resRecord l ++ L.flatMap resRecord ++ post =
+        pre ++ ((l.width - 1).toNat.toUInt16 >>> 8).toUInt8 :: (l.width - 1).toNat.toUInt16.toUInt8 ::
+          ((l.height - 1).toNat.toUInt16 >>> 8).toUInt8 :: (l.height - 1).toNat.toUInt16.toUInt8 ::
+          l.fps.toNat.toUInt8 :: (L.flatMap resRecord ++ post) := by
+      simp [resRecord, be16, List.append_assoc]
+    rw [hb]
+    obtain ⟨a0, a1, a2, a3, a4⟩ := at'_append5 pre ((l.width - 1).toNat.toUInt16 >>> 8).toUInt8
+      (l.width - 1).toNat.toUInt16.toUInt8 ((l.height - 1).toNat.toUInt16 >>> 8).toUInt8
+      (l.height - 1).toNat.toUInt16.toUInt8 l.fps.toNat.toUInt8 (L.flatMap resRecord ++ post)
+    unfold Layer.ResWF at hl
+    rw [a0, a1, a2, a3, a4, rd16_be16, rd16_be16, dim_roundtrip _ (by omega), dim_roundtrip _ (by omega),
+      fps_roundtrip _ (by omega)]
+    simp only [List.flatMap_cons, List.length_append, hlen]
+    congr 2
+    omega
+
+/-! ### assembly -/
+
+theorem resRecord_length (l : Layer) : (resRecord l).length = 5 := by simp [resRecord, be16]
+
+theorem flatMap_resRecord_length (ls : List Layer) : (ls.flatMap resRecord).length = ls.length * 5 := by
+  induction ls with
+  | nil => rfl
+  | cons l ls ih =>
+    simp only [List.flatMap_cons, List.length_append, resRecord_length, ih, List.length_cons]; omega
+
+theorem filled_eq_clearRes (l : Layer) (h : 0 ≤ l.stream ∧ 0 ≤ l.spatial) : filled l = l.clearRes := by
+  have e1 : ((l.stream.toNat : Nat) : Int) = l.stream := by omega
+  have e2 : ((l.spatial.toNat : Nat) : Int) = l.spatial := by omega
+  simp [filled, blank, Layer.clearRes, e1, e2]
+
+theorem filled_with_res (l : Layer) (h : 0 ≤ l.stream ∧ 0 ≤ l.spatial) :
+    { filled l with width := l.width, height := l.height, fps := l.fps } = l := by
+  have e1 : ((l.stream.toNat : Nat) : Int) = l.stream := by omega
+  have e2 : ((l.spatial.toNat : Nat) : Int) = l.spatial := by omega
+  simp [filled, blank, e1, e2]
+
+/-- the part of Unmarshal after the bitmasks, on the bytes the specification prescribes -/
+theorem unmarshalTail_encode (hleb : LebGoSpec) (v : VLA) (h : v.WF)
+    (hsmall : ∀ l ∈ v.layers, ∀ k ∈ l.rates, k < 2 ^ 56) (pre : Bytes) :
+    unmarshalTail (pre ++ temporalCounts v ++ bitrates v ++ resolutions v) v.rid.toNat (ns v)
+        ((List.range (ns v)).map (fun s => (bm v s).toUInt8)) pre.length =
+      .ok (pre ++ temporalCounts v ++ bitrates v ++ resolutions v).length v.norm := by
+  obtain ⟨hc1, hc4, hr0, hr1, hne, hs, hw, hres⟩ := h
+  have htl : ∀ l ∈ v.layers, 1 ≤ l.rates.length ∧ l.rates.length ≤ 4 := by
+    intro l hl; have := hw l hl; unfold Layer.WF at this; omega
+  have hnn : ∀ l ∈ v.layers, 0 ≤ l.stream ∧ 0 ≤ l.spatial := by
+    intro l hl; have := hw l hl; unfold Layer.WF at this; omega
+  have hrt : ∀ l ∈ v.layers, ∀ k ∈ l.rates, 0 ≤ k ∧ k < 2 ^ 56 := by
+    intro l hl k hk
+    have := hw l hl; unfold Layer.WF at this
+    exact ⟨(this.2.2.2.2.2.2 k hk).1, hsmall l hl k hk⟩
+  have hTCne : temporalCounts v ≠ [] := pack2_ne_nil _ (by simpa using hne)
+  have hTC : 1 ≤ (temporalCounts v).length := List.length_pos_iff.mpr hTCne
+  have e1 : ((v.rid.toNat : Nat) : Int) = v.rid := by omega
+  have e2 : ((ns v : Nat) : Int) = v.count := by unfold ns; omega
+  -- stage results
+  have s1 := activeSlots_eq v hs hw
+  have s2 := rdTl_eq v.layers pre (bitrates v ++ resolutions v) [] hne htl
+  have s3 := rdLayerRates_eq hleb v.layers (pre ++ temporalCounts v) (resolutions v) hrt
+  have hbs2 : pre ++ temporalCounts v ++ bitrates v ++ resolutions v =
+      pre ++ pack2 (v.layers.map (fun l => l.rates.length - 1)) ++ (bitrates v ++ resolutions v) := by
+    simp [temporalCounts, List.append_assoc]
+  unfold unmarshalTail
+  have hlen1 : pre.length + 1 ≤ (pre ++ temporalCounts v ++ bitrates v ++ resolutions v).length := by
+    simp only [List.length_append]; omega
+  simp only [hlen1, not_true_eq_false, if_false, s1]
+  rw [hbs2, s2]
+  simp only [List.nil_append]
+  have hoff : pre.length + (pack2 (v.layers.map (fun l => l.rates.length - 1))).length - 1 + 1 =
+      (pre ++ temporalCounts v).length := by
+    simp only [List.length_append, temporalCounts] at hTC ⊢; omega
+  rw [hoff, ← hbs2]
+  unfold bitrates at s3 ⊢
+  rw [s3]
+  simp only
+  cases hh : v.hasRes with
+  | false =>
+    have hRS : resolutions v = [] := by simp [resolutions, hh]
+    have hnorm : v.norm = { v with layers := v.layers.map Layer.clearRes } := by simp [VLA.norm, hh]
+    have hfl : v.layers.map filled = v.layers.map Layer.clearRes :=
+      List.map_congr_left (fun l hl => filled_eq_clearRes l (hnn l hl))
+    simp only [hRS, List.append_nil, List.length_append, beq_self_eq_true, if_true, hnorm, hfl, e1, e2, hh]
+  | true =>
+    have hRS : resolutions v = v.layers.flatMap resRecord := by simp [resolutions, hh]
+    have hnorm : v.norm = v := by simp [VLA.norm, hh]
+    have hL : 1 ≤ v.layers.length := by
+      cases hv : v.layers with
+      | nil => exact absurd hv hne
+      | cons a r => simp
+    have s4 := rdRes_eq v.layers (pre ++ temporalCounts v ++
+      v.layers.flatMap (fun l => l.rates.flatMap (fun k => writeLeb k.toNat))) [] (hres hh)
+    have hfl : v.layers.map (fun l => { filled l with width := l.width, height := l.height, fps := l.fps }) =
+        v.layers := by
+      conv => rhs; rw [← List.map_id v.layers]
+      exact List.map_congr_left (fun l hl => filled_with_res l (hnn l hl))
+    rw [hfl] at s4
+    simp only [List.append_nil, List.length_append] at s4
+    have hRl := flatMap_resRecord_length v.layers
+    have hne2 : ((pre ++ temporalCounts v ++
+        v.layers.flatMap (fun l => l.rates.flatMap (fun k => writeLeb k.toNat)) ++ resolutions v).length ==
+        (pre ++ temporalCounts v).length +
+          (v.layers.flatMap (fun l => l.rates.flatMap (fun k => writeLeb k.toNat))).length) = false := by
+      simp only [hRS, List.length_append, beq_eq_false_iff_ne]; omega
+    have hfit : (pre ++ temporalCounts v).length +
+        (v.layers.flatMap (fun l => l.rates.flatMap (fun k => writeLeb k.toNat))).length +
+        (v.layers.map filled).length * 5 ≤ (pre ++ temporalCounts v ++
+        v.layers.flatMap (fun l => l.rates.flatMap (fun k => writeLeb k.toNat)) ++ resolutions v).length := by
+      simp only [hRS, List.length_append, List.length_map]; omega
+    simp only [hne2, Bool.false_eq_true, if_false, hfit, not_true_eq_false]
+    rw [hRS]
+    simp only [List.length_append] at s4 ⊢
+    rw [s4]
+    simp only [hnorm, e1, e2]
+    obtain ⟨vr, vc, vl, vh⟩ := v
+    simp only at hh
+    subst hh
+    rfl
+
+theorem slBm_ne_zero_all (v : VLA) (h : slBm v ≠ 0) : ∀ s, s < ns v → bm v s = slBm v := by
+  unfold slBm at h ⊢
+  split at h
+  · rename_i hall
+    intro s hs
+    simp only [hall, if_true]
+    have := List.all_eq_true.mp hall s (List.mem_range.mpr hs)
+    simpa using this
+  · exact absurd rfl h
+
+theorem replicate_eq_map_range {α : Type} (n : Nat) (x : α) (f : Nat → α) (h : ∀ s, s < n → f s = x) :
+    List.replicate n x = (List.range n).map f := by
+  apply List.ext_getElem
+  · simp
+  · intro i h1 h2
+    simp only [List.length_replicate] at h1
+    simp [h i h1]
+
+/-- Unmarshal of the bytes the specification prescribes for a valid allocation (all bitrates
+    below 2^56) consumes all of them and returns the allocation, whatever the receiver held. -/
+theorem unmarshal_encode (hleb : LebGoSpec) (v : VLA) (h : v.WF)
+    (hsmall : ∀ l ∈ v.layers, ∀ k ∈ l.rates, k < 2 ^ 56) (r : VLA) :
+    unmarshal r (encode v) = .ok (encode v).length v.norm := by
+  have htail := unmarshalTail_encode hleb v h hsmall
+  obtain ⟨hc1, hc4, hr0, hr1, hne, hs, hw, hres⟩ := h
+  obtain ⟨u1, u2, u3⟩ := header_unpack v ⟨hc1, hc4⟩ ⟨hr0, hr1⟩
+  have hn : 1 ≤ ns v ∧ ns v ≤ 4 := by unfold ns; omega
+  have henc : encode v = header v :: (streamMasks v ++ temporalCounts v ++ bitrates v ++ resolutions v) := by
+    simp [encode, hne]
+  rw [henc]
+  unfold unmarshal
+  have h0 : 0 + 1 ≤ (header v :: (streamMasks v ++ temporalCounts v ++ bitrates v ++ resolutions v)).length := by
+    simp
+  have h0' : ¬ (0 ≥ (header v :: (streamMasks v ++ temporalCounts v ++ bitrates v ++ resolutions v)).length) := by
+    simp
+  have ha : at' (header v :: (streamMasks v ++ temporalCounts v ++ bitrates v ++ resolutions v)) 0 = header v := rfl
+  simp only [h0, not_true_eq_false, if_false, h0', ha, u1, u2, u3]
+  by_cases hz : slBm v = 0
+  · -- per-stream bitmasks follow
+    have hz' : ((slBm v).toUInt8 != 0) = false := by rw [hz]; rfl
+    have hSM : streamMasks v = packNibbles ((List.range (ns v)).map (bm v)) := by simp [streamMasks, hz]
+    have hSMl : (streamMasks v).length = (ns v - 1) / 2 + 1 := by
+      rw [hSM, packNibbles_length, List.length_map, List.length_range]; omega
+    have hchk : 1 + ((ns v - 1) / 2 + 1) ≤
+        (header v :: (streamMasks v ++ temporalCounts v ++ bitrates v ++ resolutions v)).length := by
+      simp only [List.length_cons, List.length_append, hSMl]; omega
+    have hpan : ¬ (1 + (ns v - 1) / 2 ≥
+        (header v :: (streamMasks v ++ temporalCounts v ++ bitrates v ++ resolutions v)).length) := by
+      simp only [List.length_cons, List.length_append, hSMl]; omega
+    simp only [hz', Bool.false_eq_true, if_false, hchk, not_true_eq_false, hpan]
+    have hmask : (List.range (ns v)).map (readMask (header v :: (streamMasks v ++ temporalCounts v ++
+        bitrates v ++ resolutions v))) = (List.range (ns v)).map (fun s => (bm v s).toUInt8) := by
+      rw [hSM, List.append_assoc, List.append_assoc]
+      exact readMask_packed (bm v) (bm_lt v) (ns v) hn (header v) _
+    rw [hmask]
+    have := htail (header v :: streamMasks v)
+    have hoff : (header v :: streamMasks v).length = 1 + (1 + (ns v - 1) / 2) := by
+      simp only [List.length_cons, hSMl]; omega
+    rw [hoff] at this
+    simpa [List.append_assoc] using this
+  · -- shared bitmask
+    have hz' : ((slBm v).toUInt8 != 0) = true := by
+      have := toUInt8_inj_of_lt (a := slBm v) (b := 0) (by have := slBm_lt v; omega) (by omega)
+      simp only [bne_iff_ne, ne_eq]
+      intro hc
+      exact hz (this.mp hc)
+    have hSM : streamMasks v = [] := by simp [streamMasks, hz]
+    simp only [hz', if_true]
+    have hmask : List.replicate (ns v) (slBm v).toUInt8 = (List.range (ns v)).map (fun s => (bm v s).toUInt8) :=
+      replicate_eq_map_range _ _ _ (fun s hs' => by rw [slBm_ne_zero_all v hz s hs'])
+    rw [hmask]
+    have := htail [header v]
+    simpa [hSM, List.append_assoc] using this
 
 end Rtp.Model.Vla
